@@ -147,7 +147,8 @@ static Verdict runD(const D &d) {
     bytes = w.bytes;
     for (auto r : d.fs.rg_rows) rg_rows.push_back(r);
     // row groups with zero rows are legal for the reference writer but have no pages
-    for (auto &pi : w.pages) { PageRef pr{pi.rg, pi.col, pi.is_dict, pi.body_off, pi.body_len, pi.first_row, pi.page <= 0 && !pi.is_dict, d.fs.row_groups[(size_t)pi.rg][(size_t)pi.col].codec}; pages.push_back(pr); }
+    for (auto &pi : w.pages) { if (d.fs.row_groups[(size_t)pi.rg][(size_t)pi.col].n == 0) continue;   // a chunk without values is never read, so its (dictionary) page is never touched
+      PageRef pr{pi.rg, pi.col, pi.is_dict, pi.body_off, pi.body_len, pi.first_row, pi.page <= 0 && !pi.is_dict, d.fs.row_groups[(size_t)pi.rg][(size_t)pi.col].codec}; pages.push_back(pr); }
   }
   if (pages.empty()) { vd.vacuous = true; return vd; }
   // the undamaged file never reports an error
